@@ -120,6 +120,9 @@ def run_generic(case: dict) -> Result:
         before = value_state(P)
         v = a.ref['value']
         key = f'{cname}.{prop}'
+        from vf.props import c06 as _c06
+        tight0 = _c06.tight_pairs(root)
+        unind0 = _c06.unindented_comment_before_body_line(O.print_text(root))   # the open finding needs such a comment in the text beforehand
         try:
             a.run()
         except common.REFUSAL:
@@ -156,7 +159,16 @@ def run_generic(case: dict) -> Result:
             break  # documented: a signed number directly after a number in custom values is the caller's to parenthesise
         again = reparse(root)
         if again is None:
-            break  # re-parsability is C06's
+            # "survives print and re-parse": a value after which the document no longer parses did not survive. The layouts behind C06's open
+            # findings (compact neighbours glued by an insertion or removal, a bare number before a tight comma, an unindented comment inside a
+            # body) are C06's and stay there.
+            from vf.props import c06
+            if (c06.tight_pairs(root) - tight0) or c06.tight_number_comma_number(root) or (unind0 and c06.unindented_comment_before_body_line(O.print_text(root))) \
+                    or any(type(t).__name__ == 'BlockComment' and not t.claimed for t in O.store_tokens(root.token_store)):
+                classes.add('unparsable:c06-open-finding-layout')
+                break
+            res.bad(f'reparse-rejected:{key}', f'{key} = {v!r}: the document now prints {O.print_text(root)!r}, which parse() rejects')
+            break
         ms = OPS.index_models(again).get(cname, [])
         if mi is None or len(ms) != len(idx0.get(cname, [])) or mi >= len(ms):
             break
